@@ -6,8 +6,10 @@ PROP = {
   "saml2_tophat.sigver:SecurityContext.correctly_signed_message[authn_request]"
  ],
  "bounded": [
-  "mdstore_lookup"
+  "mdstore_lookup",
+  "wrap_table"
  ],
  "level": "proof",
- "id": "C03"
+ "id": "C03",
+ "level_text": "Every proof obligation generated from the current source of the functions under contract is discharged: a normal return of _check_signature means the signature verified under a certificate metadata holds for the issuer named in the signed element (the caller's hint only when the element names none), or -- only if metadata has none and the configuration allows it -- under a certificate embedded in the element. BOUNDED companions (never counted as proved): mdstore_lookup for the assumed MetaData.certs; wrap_table (stand-in tool): an assertion that names ANOTHER identity provider known from metadata as its issuer but is signed with the key of the provider that sent the response must be refused -- as a plain assertion, inside the ciphertext of an encrypted one, and in the PEFIM layout where the decrypted advice assertion is verified with the outer issuer as a hint."
 }
